@@ -753,6 +753,8 @@ func checkC18(c *Ctx, r *Report) {
 	c18RawAccept(c, r)
 	sepRule(c, r, "C18.SEP", true)
 	sepRule(c, r, "C18.SEPJ", false)
+	r.rule("C18.NEST", "every nest() of the reader is matched by unnest() (call or defer) on every path to a successful return of the calling function")
+	nestPairRule(c, r, "C18.NEST")
 	ws := c.fn("writeString")
 	re := c.fn("(*parser).readEscaped")
 	rv := c.fn("(*parser).readValue")
